@@ -213,8 +213,48 @@ func closureLabels(parent *ssa.Function) map[*ssa.Function][]string {
 				}
 				return ""
 			}
+			// a closure kept in a local variable is also named by how that variable is used
+			var extra []ssa.Instruction
 			for _, r := range refs {
+				if st, ok := r.(*ssa.Store); ok && st.Val == ssa.Value(mc) {
+					if a, ok := st.Addr.(*ssa.Alloc); ok && a.Referrers() != nil {
+						for _, ar := range *a.Referrers() {
+							if ld, ok := ar.(*ssa.UnOp); ok && ld.Referrers() != nil {
+								var scan func(v ssa.Value, depth int)
+								scan = func(v ssa.Value, depth int) {
+									if v.Referrers() == nil || depth > 2 {
+										return
+									}
+									for _, lr := range *v.Referrers() {
+										switch c := lr.(type) {
+										case *ssa.Call:
+											for _, arg := range c.Call.Args {
+												if arg == v {
+													extra = append(extra, lr)
+												}
+											}
+										case *ssa.ChangeType:
+											scan(c, depth+1)
+										}
+									}
+								}
+								scan(ld, 0)
+							}
+						}
+					}
+				}
+			}
+			for _, r := range append(append([]ssa.Instruction(nil), refs...), extra...) {
 				lab := labelOf(mc, r, 0)
+				isExtra := false
+				for _, e := range extra {
+					if e == r {
+						isExtra = true
+					}
+				}
+				if isExtra {
+					lab = "arg"
+				}
 				if lab == "" {
 					continue
 				}
